@@ -519,7 +519,7 @@ def run_check(check: Check, tier: str, seed: int, only_clauses: Iterable[str] | 
     if errors:
         evidence["coverage"]["harness_errors"] = [f"{c}: {e[:400]}" for c, e in errors[:5]]
     os.makedirs(os.path.join(VERIF_DIR, "evidence"), exist_ok=True)
-    if not only_clauses:
+    if not only_clauses and not os.environ.get("VERIF_NO_EVIDENCE"):
         with open(os.path.join(VERIF_DIR, "evidence", f"{check.pid}.json"), "w", encoding="utf-8") as fh:
             json.dump(evidence, fh, indent=1, default=str)
 
